@@ -930,4 +930,81 @@ example : bboxRotate3 [((0 : Rat), 1), (0, 1), (0, 1)] [3/5, -4/13, 48/65, 4/5, 
     = some [(-4/13, 87/65), (-36/65, 67/65), (0, 17/13)] := by decide +kernel
 
 
+/-! ### evaluated copies `D(**σ)` -/
+
+theorem mapOpt_comp {α β γ : Type} (f : β → Option γ) (g : α → β) : ∀ l : List α, mapOpt (fun a => f (g a)) l = mapOpt f (l.map g)
+  | [] => rfl
+  | a :: as => by simp only [mapOpt, List.map_cons, mapOpt_comp f g as]
+
+theorem rowsHull_comp (f : Env K → Option (List (K × K))) (g : Env K → Env K) (ρs : List (Env K)) :
+    rowsHull (fun ρ => f (g ρ)) ρs = rowsHull f (ρs.map g) := by
+  simp only [rowsHull, mapOpt_comp]
+
+theorem mapOpt_eval1_peval (p : PFun K) (σ : Env K) (ρs : List (Env K)) :
+    mapOpt (eval1 (p.peval σ)) ρs = mapOpt (eval1 p) (ρs.map (· ++ σ)) := mapOpt_comp (eval1 p) (· ++ σ) ρs
+theorem mapOpt_eval2_peval (p : PFun K) (σ : Env K) (ρs : List (Env K)) :
+    mapOpt (eval2 (p.peval σ)) ρs = mapOpt (eval2 p) (ρs.map (· ++ σ)) := mapOpt_comp (eval2 p) (· ++ σ) ρs
+theorem mapOpt_eval3_peval (p : PFun K) (σ : Env K) (ρs : List (Env K)) :
+    mapOpt (eval3 (p.peval σ)) ρs = mapOpt (eval3 p) (ρs.map (· ++ σ)) := mapOpt_comp (eval3 p) (· ++ σ) ρs
+theorem mapOpt_parCorners_peval (o c1 c2 : PFun K) (σ : Env K) (ρs : List (Env K)) :
+    mapOpt (parCorners (o.peval σ) (c1.peval σ) (c2.peval σ)) ρs = mapOpt (parCorners o c1 c2) (ρs.map (· ++ σ)) :=
+  mapOpt_comp (parCorners o c1 c2) (· ++ σ) ρs
+theorem mapOpt_triCorners_peval (o c1 c2 : PFun K) (σ : Env K) (ρs : List (Env K)) :
+    mapOpt (triCorners (o.peval σ) (c1.peval σ) (c2.peval σ)) ρs = mapOpt (triCorners o c1 c2) (ρs.map (· ++ σ)) :=
+  mapOpt_comp (triCorners o c1 c2) (· ++ σ) ρs
+
+/-- **The box of an evaluated copy.**  `D(**σ)` (every parameter function partially evaluated at `σ`, the
+    model's `Dom.peval`) asked with the rows `ρs` returns exactly the box `D` itself returns for the rows
+    `ρ ++ σ`: the copy carries the fixed values and nothing else — in particular its box does not depend on
+    the parent's later use, on other copies made from the same parent, or on the order in which they were
+    made (in the model an evaluated copy is a value; the harness checks that the live objects behave so). -/
+theorem bbox_peval (σ : Env K) (D : Dom K) : ∀ (ρs : List (Env K)) (ρ : Env K),
+    bbox (D.peval σ) ρs ρ = bbox D (ρs.map (· ++ σ)) (ρ ++ σ) := by
+  induction D with
+  | interval v lb ub =>
+    intro ρs ρ
+    simp only [Dom.peval, bbox, mapOpt_eval1_peval]
+  | par v o c1 c2 =>
+    intro ρs ρ
+    simp only [Dom.peval, bbox, mapOpt_parCorners_peval]
+  | tri v o c1 c2 =>
+    intro ρs ρ
+    simp only [Dom.peval, bbox, mapOpt_triCorners_peval]
+  | circle v c r =>
+    intro ρs ρ
+    simp only [Dom.peval, bbox, mapOpt_eval1_peval, mapOpt_eval2_peval]
+  | sphere v c r =>
+    intro ρs ρ
+    simp only [Dom.peval, bbox, mapOpt_eval1_peval, mapOpt_eval3_peval]
+  | union a b iha ihb | inter a b iha ihb | prod a b iha ihb =>
+    intro ρs ρ
+    have ha : rowsHull (bbox (a.peval σ) ρs) ρs = rowsHull (bbox a (ρs.map (· ++ σ))) (ρs.map (· ++ σ)) := by
+      rw [show bbox (a.peval σ) ρs = fun ρ => bbox a (ρs.map (· ++ σ)) (ρ ++ σ) from funext (iha ρs)]
+      exact rowsHull_comp (bbox a (ρs.map (· ++ σ))) (· ++ σ) ρs
+    have hb : rowsHull (bbox (b.peval σ) ρs) ρs = rowsHull (bbox b (ρs.map (· ++ σ))) (ρs.map (· ++ σ)) := by
+      rw [show bbox (b.peval σ) ρs = fun ρ => bbox b (ρs.map (· ++ σ)) (ρ ++ σ) from funext (ihb ρs)]
+      exact rowsHull_comp (bbox b (ρs.map (· ++ σ))) (· ++ σ) ρs
+    simp only [Dom.peval, bbox, ha, hb]
+  | cut a b iha _ =>
+    intro ρs ρ
+    simp only [Dom.peval, bbox, iha]
+  | translate v d t ih =>
+    intro ρs ρ
+    simp only [Dom.peval, bbox, ih]
+    rfl
+  | rotate v d m c ih =>
+    intro ρs ρ
+    simp only [Dom.peval, bbox, ih]
+    rfl
+  | bdry d ih | bdryL d ih | bdryR d ih =>
+    intro ρs ρ
+    simp only [Dom.peval, bbox, ih]
+
+/-- the disc moving with `t` under a `t`-dependent translation, evaluated at t = 1/2: the copy asked without
+    parameters answers what the parent answers for the row t = 1/2 -/
+example : bbox (exMove.peval [("t", [1/2])]) [[]] [] = bbox exMove [[("t", [1/2])]] [("t", [1/2])] :=
+  bbox_peval _ _ _ _
+example : bbox (exMove.peval [("t", [1/2])]) [[]] [] = some [(0, 2), (0, 2)] := by decide +kernel
+
+
 end TPV.Geom
